@@ -32,6 +32,8 @@ def api_calls(walk):
             pending = None
         elif a == 'HostEventAfter':
             calls.append(('host_event', None, st))
+        elif a == 'AppSetsHooks':
+            calls.append(('app_sets_hooks', None, st))
     return calls
 
 
@@ -64,6 +66,8 @@ def replay_walk(c, walk, wd, exc):
                                               len(sysm.sent) - before[1])
                         extra_thread = threading.Thread(target=worker)
                         extra_thread.start()
+                elif name == 'app_sets_hooks':
+                    sysm.app_sets_hooks()
                 elif name == 'shutdown':
                     err = sysm.shutdown(failing)
                     if err:
